@@ -11,6 +11,7 @@
 //! trusted: R15 (deep slices): init::synchronize_listeners: the test that decides whether a fetched block is handed to a listener and the match that hands it over (listener = stub that records what it is told; `&L` written `&mut` as for ChainNotifier; ValidatedBlock = Box<BlockData> skeleton), the batch size / truncation pair of the fetch loop (with the function-local const MAX_BLOCKS_AT_ONCE of the production configuration), and the test that keeps the longest list of blocks to connect, verbatim as functions; fetching (futures), the header cache and the per-listener disconnection (ChainNotifier, above) are dropped and not claimed here
 //! assume: block sources never report the height u32::MAX (check_builds_on computes previous_header.height + 1 in u32)
 //! assume: the served block tree is consistent: one parent and one height per block hash (parent_of/height_of uninterpreted)
+//! assume: a header the poller stub hands back (poll_chain_tip's tip, look_up_previous_header's parent) carries the true height of its block in the served tree (`wf`): what is PROVED is the link between neighbours - every header a walk steps back from was checked by check_builds_on against the header stepped to, cached or fetched (finding F13) - which anchors the claimed heights where the walk meets a cached header or the chain the listener is on; a source that gives different answers for one hash, or a reported tip that is itself an ancestor of the known tip (DESIGN O16), is not excluded by any check
 //! assume: termination of the walk is not claimed (needs a genesis assumption): partial correctness only
 //! trusted: assume_specification for core::cmp::max / core::cmp::min (std definitions): present in every unit so that a change that introduces them is verified instead of being rejected by the tool
 use vstd::prelude::*;
